@@ -7,3 +7,12 @@
 let handlers : (string, Sexp.t -> string) Hashtbl.t = Hashtbl.create 32
 let register (name : string) (f : Sexp.t -> string) = Hashtbl.replace handlers name f
 let result ~id ~status ?(key = "-") ?(detail = "") () = Printf.sprintf "%s\t%s\t%s\t%s" id status key detail
+
+(* Kernel cross-check (tools/kernel/run.py): when VERIF_EMIT_MODEL is set, main.ml appends a 5th tab-separated column,
+   the canonical text of the MODEL's raw output for the case, as left here by the handler ("-" = the handler does not
+   print one).  The default four-column output that ./check parses is unchanged. *)
+let emit_model : bool = (match Sys.getenv_opt "VERIF_EMIT_MODEL" with Some ("" | "0") | None -> false | Some _ -> true)
+let model_col : string ref = ref "-"
+let set_model (s : string) : unit = if emit_model then model_col := s
+(* for texts that are expensive to build *)
+let set_model_lazy (f : unit -> string) : unit = if emit_model then model_col := f ()
